@@ -38,6 +38,7 @@ def check(ctx):
     from .c10 import _staging_tables
     ctx.attempt(_staging_tables)
     ctx.attempt(_copyall)
+    ctx.attempt(late_defaults)
     ctx.attempt(_fallback)
     ctx.attempt(forward.check_all, module_suffixes=('plssdesc.plss_parse', 'plssdesc.plssdesc'))
     ctx.attempt(lockdown, ctx.repo.func('PLSSDesc.parse'), only=('layout', 'segment'))
@@ -276,6 +277,42 @@ def _once(ctx):
                         and norm(c.func.value) in ('parent.tract_components', 'self.parent.tract_components'):
                     ctx.violation('ONCE', f"{fi.qualname}: {norm(c)[:60]}", "second hand-off path to the parent",
                                   key=f"ONCE|{fi.qualname}|handoff")
+
+
+def late_defaults(ctx, rule='LOCK'):
+    """PLSSParser decides some defaults only when it knows the layout
+    (`if clean_up is None: clean_up = True; if layout == COPY_ALL: clean_up =
+    False`).  PLSSDesc.parse must therefore hand such an option down as None
+    when the caller did not give it: resolving None to an attribute of the
+    description first means the layout-dependent default never applies (a
+    copy_all description is cleaned up although nothing asked for it)."""
+    from ..srcmodel import facts_at
+    init = ctx.repo.func('PLSSParser.__init__')
+    late = {}
+    for n in walk_local(init.node):
+        if isinstance(n, ast.If):
+            for _e, txt, pol in literals([(n.test, True)]):
+                if txt.endswith(' is None') and pol and txt.split(' ')[0] in init.params():
+                    inner = [x for b in n.body for x in ast.walk(b) if isinstance(x, ast.If)]
+                    if inner:
+                        late[txt.split(' ')[0]] = norm(inner[0].test)
+    pp = ctx.repo.func('PLSSDesc.parse')
+    n_ = 0
+    for p_, cond in sorted(late.items()):
+        if p_ not in pp.params():
+            continue
+        n_ += 1
+        early = [a for a in walk_local(pp.node) if isinstance(a, ast.Assign) and norm(a.targets[0]) == p_
+                 and not (isinstance(a.value, ast.Constant) and a.value.value is None)
+                 and any(txt == f"{p_} is None" and pol for _e, txt, pol in facts_at(a))]
+        ctx.check(not early, rule, f"PLSSDesc.parse hands `{p_}` down as None when it was not given",
+                  f"PLSSParser decides it under `{cond}`",
+                  f"`{norm(early[0])[:60]}` replaces the missing `{p_}` before the parser sees it: PLSSParser's own default "
+                  f"(which depends on `{cond}`) never applies - with copy_all the description is cleaned although the "
+                  f"layout promises the text as it is" if early else '',
+                  key=f"{rule}|PLSSDesc.parse|late-default|{p_}", where=common.loc(pp, early[0]) if early else None)
+    if n_ == 0:
+        ctx.undecided(rule, 'PLSSDesc.parse hands late-defaulted options down as None', 'no layout-dependent default found in PLSSParser')
 
 
 def _copyall(ctx):
